@@ -32,6 +32,7 @@ class Models:
     def __init__(self, fns):
         self.fns = fns
         self.fresh = 0
+        self.u8_as_bitvec = False     # obligations that track byte values switch this on
 
     def fresh_name(self, p):
         self.fresh += 1
@@ -41,11 +42,21 @@ class Models:
     def constant(self, s):
         if s in ("true", "false"):
             return Z(z3.BoolVal(s == "true"))
+        m = re.match(r"^(\d+)_u8$", s)
+        if m and self.u8_as_bitvec:
+            return Z(z3.BitVecVal(int(m.group(1)), 8))
         m = re.match(r"^(-?\d+)_(u|i)(\d+|size)$", s)
         if m:
             return Z(z3.IntVal(int(m.group(1))))
         if s == "()":
             return UNIT
+        m = re.match(r"^\{(alloc\d+): &.*\}$", s)
+        if m:
+            import mir as _mir
+            return Ref(Cell(Opaque("static", _mir.ALLOCS.get(m.group(1), m.group(1)))))
+        m = re.match(r"^(\d+)_u8$", s)
+        if m:
+            return Z(z3.BitVecVal(int(m.group(1)), 8))
         m = re.match(r"^(?:yasna::tags::)?(TAG_\w+)$", s)
         if m:
             return Opaque("tag", m.group(1))
@@ -59,6 +70,10 @@ class Models:
     def binop(self, op, a, b):
         if not isinstance(a, Z) or not isinstance(b, Z):
             raise Unsupported(f"binop {op} on {type(a).__name__}/{type(b).__name__}")
+        if op == "BitAnd":
+            return Z(a.e & b.e)
+        if op == "BitOr":
+            return Z(a.e | b.e)
         f = {"Eq": lambda x, y: x == y, "Ne": lambda x, y: x != y, "Lt": lambda x, y: x < y, "Le": lambda x, y: x <= y,
              "Gt": lambda x, y: x > y, "Ge": lambda x, y: x >= y, "Mul": lambda x, y: x * y, "Add": lambda x, y: x + y,
              "Sub": lambda x, y: x - y}.get(op)
